@@ -148,6 +148,9 @@ def import_arrangements():
     add("forward-decl-never-defined-in-import", {"main.ddp": 'Binde "a" ein.\nDie Zahl x ist 1.\n', "a.ddp": fwd.replace("Die Funktion", "Die öffentliche Funktion")})
     add("forward-decl-defined", {"main.ddp": fwd + 'Die Funktion nachher macht:\n\tGib a zurück.\nDie Zahl x ist nachher 1.\n'})
     add("warning-only", {"main.ddp": 'Die Funktion f gibt nichts zurück, macht:\n\t...\nUnd kann so benutzt werden:\n\t"f"\n'})
+    add("named-several-missing", {"main.ddp": 'Binde fehlt_a, fehlt_b, fehlt_c und fehlt_d aus "a" ein.\n', "a.ddp": A})
+    add("named-several-private-and-missing", {"main.ddp": 'Binde geheim, fehlt_b, a_wert, fehlt_c und noch_eins aus "a" ein.\nDie Zahl x ist a_wert.\n', "a.ddp": A + 'Die Zahl geheim ist 2.\nDie Zahl noch_eins ist 3.\n'})
+    add("named-several-clashing", {"main.ddp": 'Die Zahl p ist 0.\nDie Zahl q ist 0.\nDie Zahl r ist 0.\nBinde p, q und r aus "a" ein.\n', "a.ddp": 'Die öffentliche Zahl p ist 1.\nDie öffentliche Zahl q ist 2.\nDie öffentliche Zahl r ist 3.\n'})
     add("not-ddp-ext", {"main.ddp": 'Binde "a.txt" ein.\n', "a.txt.ddp": A})
     add("empty-main", {"main.ddp": ''})
     add("only-comment", {"main.ddp": '[nur ein Kommentar'})
